@@ -10,8 +10,13 @@
 //	bdkg   N honest step start nsigs reg ev tie          beacon SubmittingMember.SubmitDKGResult
 //	tdkg   N quorum cur nsigs state wait                 tbtc dkgResultSubmitter.SubmitResult
 //	tinact N honest cur nsigs nonce chainNonce wait      tbtc inactivityClaimSubmitter.SubmitClaim
+//	tappr  N submitter subBlock challenge prec seats ev tie   tbtc dkgExecutor.executeDkgValidation: the
+//	       approval goroutines of the member seats this operator controls (obs: W=<awaited blocks,
+//	       sorted> A=<blocks at which ApproveDKGResult was called, sorted>); ev = block at which
+//	       someone else's approval is observed; tie se|es
 //
-// ev: block of the competing event or `-`; tie: permutation of s(lot) e(vent) t(imeout);
+// ev: block of the competing event, `-`, or (bdkg) `@` = the competing result is accepted while
+// the member's IsGroupRegistered pre-check is being answered; tie: permutation of s(lot) e(vent) t(imeout);
 // reg/inprog: t|f|x (x = the chain call fails); state: 0..3|x; wait: - (block reached) |
 // c (context cancelled while waiting) | w (wait fails).
 //
@@ -98,6 +103,8 @@ type fakeBeacon struct {
 	submits    []uint64
 	handler    func(*event.DKGResultSubmission)
 	subscribed bool
+	evAtCheck  bool          // ev token `@`
+	pending    chan struct{} // closed when the at-check notification was consumed
 }
 
 func (c *fakeBeacon) GetConfig() *beaconchain.Config { return c.cfg }
@@ -133,6 +140,17 @@ func (c *fakeBeacon) OnDKGResultSubmitted(h func(*event.DKGResultSubmission)) su
 	})
 }
 func (c *fakeBeacon) IsGroupRegistered([]byte) (bool, error) {
+	if c.evAtCheck && c.reg == 'f' {
+		// another member's result is accepted right after this answer was computed: the chain
+		// notifies whoever is subscribed at that moment (events are not replayed later)
+		c.mu.Lock()
+		h, sub := c.handler, c.subscribed
+		c.mu.Unlock()
+		if sub && h != nil {
+			c.pending = make(chan struct{})
+			go func() { h(&event.DKGResultSubmission{BlockNumber: atomic.LoadUint64(&c.now)}); close(c.pending) }()
+		}
+	}
 	switch c.reg {
 	case 't':
 		return true, nil
@@ -254,6 +272,11 @@ func relayMember(cfg *beaconchain.Config, idx int, entryBytes []byte, start uint
 	select {
 	case await = <-bc.awaited:
 	case err := <-done:
+		select {
+		case await = <-bc.awaited:
+			return fmtMember(idx, await, true, ch.submits, relayErrClass(err))
+		default:
+		}
 		return fmtMember(idx, 0, false, ch.submits, relayErrClass(err))
 	case <-time.After(patience):
 		return fmtMember(idx, 0, false, nil, "HANG")
@@ -324,7 +347,10 @@ func sigMap(n int) map[group.MemberIndex][]byte {
 
 func bdkgMember(cfg *beaconchain.Config, idx int, start uint64, nsigs int, reg byte, ev string, tie string) string {
 	bc := newFakeBC(start)
-	ch := &fakeBeacon{cfg: cfg, now: start, reg: reg}
+	ch := &fakeBeacon{cfg: cfg, now: start, reg: reg, evAtCheck: ev == "@"}
+	if ev == "@" {
+		ev = "-"
+	}
 	done := make(chan error, 1)
 	go func() {
 		defer recoverTo(done)
@@ -335,6 +361,11 @@ func bdkgMember(cfg *beaconchain.Config, idx int, start uint64, nsigs int, reg b
 	select {
 	case await = <-bc.awaited:
 	case err := <-done:
+		select { // finished already, but it may have asked for its slot before
+		case await = <-bc.awaited:
+			return fmtMember(idx, await, true, ch.submits, bdkgErrClass(err))
+		default:
+		}
 		return fmtMember(idx, 0, false, ch.submits, bdkgErrClass(err))
 	case <-time.After(patience):
 		return fmtMember(idx, 0, false, nil, "HANG")
@@ -346,6 +377,18 @@ func bdkgMember(cfg *beaconchain.Config, idx int, start uint64, nsigs int, reg b
 	sortOccs(occs, tie)
 	var ret error
 	finished := false
+	if ch.pending != nil { // the at-check notification is taken before any later occurrence
+		select {
+		case <-ch.pending:
+		case ret = <-done:
+			finished = true
+		case <-time.After(patience):
+			return fmtMember(idx, await, true, nil, "HANG")
+		}
+		if finished {
+			occs = nil
+		}
+	}
 	for _, o := range occs {
 		switch o.kind {
 		case 's':
@@ -430,6 +473,143 @@ func (c *fakeTbtc) AssembleInactivityClaim(id [32]byte, _ []group.MemberIndex, _
 func (c *fakeTbtc) SubmitInactivityClaim(*tbtc.InactivityClaim, *big.Int, []uint32) error {
 	c.submits = append(c.submits, c.now)
 	return nil
+}
+
+// ---- approval scheduling ----------------------------------------------------
+
+type apprChain struct {
+	tbtc.Chain // nil
+	params     tbtc.DKGParameters
+	now        uint64 // atomic
+	mu         sync.Mutex
+	handlers   map[int]func(*tbtc.DKGResultApprovedEvent)
+	nextID     int
+	approvals  []uint64
+	fin        chan struct{}
+}
+
+func (c *apprChain) IsDKGResultValid(*tbtc.DKGChainResult) (bool, error) { return true, nil }
+func (c *apprChain) DKGParameters() (*tbtc.DKGParameters, error)         { p := c.params; return &p, nil }
+func (c *apprChain) OnDKGResultApproved(h func(*tbtc.DKGResultApprovedEvent)) subscription.EventSubscription {
+	c.mu.Lock()
+	id := c.nextID
+	c.nextID++
+	c.handlers[id] = h
+	c.mu.Unlock()
+	return subscription.NewEventSubscription(func() {
+		c.mu.Lock()
+		delete(c.handlers, id)
+		c.mu.Unlock()
+		c.fin <- struct{}{} // deferred by the approval goroutine: it is done
+	})
+}
+func (c *apprChain) ApproveDKGResult(*tbtc.DKGChainResult) error {
+	c.mu.Lock()
+	c.approvals = append(c.approvals, atomic.LoadUint64(&c.now))
+	c.mu.Unlock()
+	return nil
+}
+
+type waitReq struct {
+	block   uint64
+	release chan struct{}
+}
+
+func runApproval(n, submitter int, subBlock, challenge, prec uint64, seats []int, ev string, tie string) string {
+	const me, other = 7, 1
+	ch := &apprChain{params: tbtc.DKGParameters{ChallengePeriodBlocks: challenge, ApprovePrecedencePeriodBlocks: prec},
+		now: subBlock, handlers: map[int]func(*tbtc.DKGResultApprovedEvent){}, fin: make(chan struct{}, 512)}
+	members := make(chain.OperatorIDs, n)
+	for i := range members {
+		members[i] = other
+	}
+	for _, s := range seats {
+		members[s-1] = me
+	}
+	reqs := make(chan waitReq, 512)
+	waitFn := func(ctx context.Context, b uint64) error {
+		r := waitReq{b, make(chan struct{})}
+		reqs <- r
+		select {
+		case <-r.release:
+		case <-ctx.Done():
+		}
+		return nil
+	}
+	res := &tbtc.DKGChainResult{SubmitterMemberIndex: group.MemberIndex(submitter), Members: members}
+	tbtc.VerifC47ExecuteDkgValidation(&tbtc.GroupParameters{GroupSize: n, GroupQuorum: n, HonestThreshold: n},
+		func() (chain.OperatorID, error) { return me, nil }, ch, waitFn, big.NewInt(1), subBlock, res, [32]byte{})
+	k := 0
+	for _, m := range members {
+		if m == me {
+			k++
+		}
+	}
+	var rs []waitReq
+	for len(rs) < k {
+		select {
+		case r := <-reqs:
+			rs = append(rs, r)
+		case <-time.After(patience):
+			return "HANG"
+		}
+	}
+	sort.SliceStable(rs, func(i, j int) bool { return rs[i].block < rs[j].block })
+	finished := 0
+	waitFin := func(upTo int) bool {
+		for finished < upTo {
+			select {
+			case <-ch.fin:
+				finished++
+			case <-time.After(patience):
+				return false
+			}
+		}
+		return true
+	}
+	evBlock, haveEv := optBlock(ev)
+	evDone := !haveEv
+	fire := func() bool {
+		atomic.StoreUint64(&ch.now, evBlock)
+		ch.mu.Lock()
+		var hs []func(*tbtc.DKGResultApprovedEvent)
+		for _, h := range ch.handlers {
+			hs = append(hs, h)
+		}
+		ch.mu.Unlock()
+		for _, h := range hs {
+			h(&tbtc.DKGResultApprovedEvent{BlockNumber: evBlock})
+		}
+		evDone = true
+		return waitFin(k) // every waiting goroutine wakes up through its context and leaves
+	}
+	for i, r := range rs {
+		if !evDone && (evBlock < r.block || (evBlock == r.block && tie == "es")) {
+			if !fire() {
+				return "HANG"
+			}
+		}
+		if finished >= k {
+			break
+		}
+		atomic.StoreUint64(&ch.now, r.block)
+		close(r.release)
+		if !waitFin(i + 1) {
+			return "HANG"
+		}
+	}
+	if !evDone {
+		fire()
+	}
+	var ws []uint64
+	for _, r := range rs {
+		ws = append(ws, r.block)
+	}
+	ch.mu.Lock()
+	as := append([]uint64(nil), ch.approvals...)
+	ch.mu.Unlock()
+	sort.Slice(as, func(i, j int) bool { return as[i] < as[j] })
+	return "W=" + hx.JoinInts(ws) + " A=" + hx.JoinInts(as)
 }
 
 func tbtcErrClass(err error) string {
@@ -574,10 +754,34 @@ func exec(op string) (string, string) {
 			tag += "+fewsigs"
 		} else if f[6] != "f" {
 			tag += "+registered"
+		} else if f[7] == "@" {
+			tag += "+atcheck"
 		} else if _, ok := optBlock(f[7]); ok {
 			tag += "+dkgev"
 		}
 		return "T=- " + strings.Join(ms, ","), tag
+	case f[0] == "tappr" && len(f) == 9:
+		n, submitter := hx.Atoi(f[1]), hx.Atoi(f[2])
+		seats := hx.ParseInts(f[6])
+		if n < 1 || n > 255 || submitter < 1 || submitter > n || (f[8] != "se" && f[8] != "es") {
+			return "bad-op", "bad"
+		}
+		seen := map[int]bool{}
+		for _, s := range seats {
+			if s < 1 || s > n || seen[s] {
+				return "bad-op", "bad"
+			}
+			seen[s] = true
+		}
+		obs := runApproval(n, submitter, hx.AtoU64(f[3]), hx.AtoU64(f[4]), hx.AtoU64(f[5]), seats, f[7], f[8])
+		tag := "tappr"
+		if seen[submitter] {
+			tag += "+submitterseat"
+		}
+		if f[7] != "-" {
+			tag += "+apprev"
+		}
+		return obs, tag
 	case (f[0] == "tdkg" && len(f) == 7) || (f[0] == "tinact" && len(f) == 8):
 		n, thr, cur, nsigs := hx.Atoi(f[1]), hx.Atoi(f[2]), hx.AtoU64(f[3]), hx.Atoi(f[4])
 		if n < 1 || n > 255 || thr > n {
@@ -652,7 +856,32 @@ func gen(r *hx.Rng, n int, tier string) []string {
 	tf := []string{"t", "f", "x"}
 	for len(ops) < n+maxN*(maxN+1)/2 {
 		N := pickN(r)
-		switch r.Intn(10) {
+		switch r.Intn(12) {
+		case 10, 11:
+			// tBTC DKG result approval: the operator controls some member seats
+			submitter := r.Range(1, N)
+			var seats []int
+			for j := 1; j <= N; j++ {
+				if r.Chance(1, 2) || (j == submitter && r.Chance(1, 2)) || (j == 1 && r.Chance(1, 2)) {
+					seats = append(seats, j)
+				}
+			}
+			sub, chal, prec := uint64(r.Intn(5000)), uint64(r.Range(0, 30)), uint64(r.Range(1, 25))
+			p := sub + chal + 1
+			ev := "-"
+			if r.Chance(2, 3) {
+				ev = fmt.Sprint(p + uint64(r.Intn(int(prec)+15*N+2)))
+				if r.Chance(1, 3) && len(seats) > 0 { // exactly on some member's approval block
+					j := hx.Pick(r, seats)
+					if j == submitter {
+						ev = fmt.Sprint(p)
+					} else {
+						ev = fmt.Sprint(p + prec + uint64(j-1)*15)
+					}
+				}
+			}
+			ops = append(ops, fmt.Sprintf("tappr %d %d %d %d %d %s %s %s", N, submitter, sub, chal, prec,
+				hx.JoinInts(seats), ev, hx.Pick(r, []string{"se", "es"})))
 		case 0, 1, 2, 3:
 			step := uint64(3)
 			if r.Chance(1, 2) {
@@ -698,6 +927,9 @@ func gen(r *hx.Rng, n int, tier string) []string {
 				if r.Chance(1, 3) {
 					ev = fmt.Sprint(start + uint64(r.Intn(N))*step)
 				}
+			}
+			if r.Chance(1, 6) {
+				ev = "@" // accepted on chain between the registration check and the wait
 			}
 			ops = append(ops, fmt.Sprintf("bdkg %d %d %d %d %d %s %s %s", N, honest, step, start, nsigs, reg, ev,
 				hx.Pick(r, []string{"se", "es"})))
